@@ -11,6 +11,7 @@ jumps; parsers built mid-history) with four oracles:
 import datetime
 import gc
 import sys
+import time
 from collections import Counter
 
 from hxsim import canon, formgen, scen, seams
@@ -533,6 +534,7 @@ def execute(sc, stats):
     clock = StepClock(reach=want_reach)
     vio = []
     refs = None
+    reads0 = seams.CLOCK.reads
     phase = sc.get('ref_phase', 'after')
     if phase.startswith('before'):
         refs = _references(sc, stats, clock, reverse=phase.endswith('reversed'))
@@ -609,7 +611,7 @@ def execute(sc, stats):
             stats['probe:clock[%s]' % iso[:10]] += 1
     for kname, n in world.fired.items():
         stats['fault:' + kname] += n
-    if sc.get('tick_us') is not None and seams.CLOCK.reads:
+    if sc.get('tick_us') is not None and seams.CLOCK.reads > reads0:
         stats['fault:clock_tick'] += 1
     if refs is None:
         refs = _references(sc, stats, clock, reverse=phase.endswith('reversed'))
@@ -765,9 +767,41 @@ def census_task(arg):
                 finally:
                     if intr is not None:
                         clock.disarm()
-        # bounded caches are fine: give them time to fill before measuring growth (a cache of up to ~10 k entries
-        # keyed on formula text, labels or operands saturates during this warm-up)
-        rep(12000 if name.startswith('distinct') else WARM)
+        if name.startswith('distinct'):
+            # Distinct inputs may legitimately fill a bounded cache (and a cache that is emptied when full gives a
+            # sawtooth).  Ten windows of 2000 evaluations; retention = growth in EVERY one of the last four windows
+            # measured.  A class that gets slower and slower (itself a symptom) is cut off after 90 s and judged on
+            # the windows it completed (at least four).
+            W = 2000
+            t_class = time.time()
+            wins = []
+            prev_b, prev_o = sys.getallocatedblocks(), sum(_census().values())
+            for _w in range(10):
+                rep(W)
+                cc = _census()
+                bb = sys.getallocatedblocks()
+                wins.append((bb - prev_b, sum(cc.values()) - prev_o))
+                prev_b, prev_o = bb, sum(cc.values())
+                stats['evals'] += W
+                if time.time() - t_class > 90 and len(wins) >= 4:
+                    stats['census_class_cut_off_after_90s'] += 1
+                    break
+            last = wins[-4:]
+            report[name] = {'windows_of_2000': wins}
+            stats['census_classes'] += 1
+            bad = None
+            if all(w[1] > TOL for w in last):
+                bad = 'gc-tracked objects grow in every one of the last four windows of %d distinct evaluations: %s' % (W, [w[1] for w in last])
+            elif all(w[0] > W // 4 for w in last):
+                bad = 'allocated blocks grow in every one of the last four windows of %d distinct evaluations: %s' % (W, [w[0] for w in last])
+            if bad:
+                if len(violations) >= 2:
+                    report['_stopped_early'] = 'census stopped after two violating classes'
+                    break
+                violations.append(({'census_class': name, 'formula': formula, 'extra': extra, 'N': N, 'ops': [], 'slots': []},
+                                   [{'invariant': 'H4_retention', 'sig': 'H4:' + name, 'detail': {'class': name, 'what': bad}}]))
+            continue
+        rep(WARM)
         c0 = _census()
         b0 = sys.getallocatedblocks()
         rep(N)
@@ -788,24 +822,8 @@ def census_task(arg):
         if isinstance(extra, tuple) and clock.fired is None:
             stats['census_interrupt_not_fired'] += 1
         bad = None
-        if name.startswith('distinct'):
-            # distinct inputs may legitimately fill a bounded cache (and a cache that is emptied when full gives
-            # a sawtooth): only growth in EVERY one of four further windows of 2000 evaluations counts
-            W = 2000
-            wins = []
-            prev_b, prev_o = b2, sum(c2.values())
-            for _ in range(4):
-                rep(W)
-                cc = _census()
-                bb = sys.getallocatedblocks()
-                wins.append((bb - prev_b, sum(cc.values()) - prev_o))
-                prev_b, prev_o = bb, sum(cc.values())
-            report[name]['windows_of_2000'] = wins
-            stats['evals'] += 4 * W
-            if all(w[1] > TOL for w in wins):
-                bad = 'gc-tracked objects grow in every window of %d distinct evaluations: %s' % (W, [w[1] for w in wins])
-            elif all(w[0] > W // 4 for w in wins):
-                bad = 'allocated blocks grow in every window of %d distinct evaluations: %s' % (W, [w[0] for w in wins])
+        if False:
+            pass
         elif d2 > TOL or ft2 > TOL:
             bad = 'gc-tracked objects grow by %d per %d evaluations (frames/tracebacks %d): %s' % (d2, 2 * N, ft2, grow[:6])
         elif (b2 - b1) > arg['block_tol'] and (b1 - b0) > arg['block_tol'] // 2:
